@@ -279,6 +279,10 @@ HAZARDS = ["provided_hash_lookup", "provided_hash_lookupAll", "provided_hash_sub
            "generation_changed_leak", "provides_leak", "destructor_lookup", "long_required_hit"]
 
 
+# deterministic interleavings (a simulated thread switch), run on both implementations
+BOTH_MODE_HAZARDS = ["stale_ro_after_reader_refresh", "concurrent_changed_unsubscribe"]
+
+
 def _asan_env():
     import subprocess
     lib = subprocess.run(["gcc", "-print-file-name=libasan.so"], capture_output=True, text=True).stdout.strip()
@@ -311,6 +315,9 @@ def extra(run, impl, known):
         jobs.append(("readers-only/%s" % mode, impl, "c11_stress.py", {"seconds": max(5, secs // 3), "readers": 4, "mutator": False, "seed": run.seed}, mode, None))
     for hz in HAZARDS:
         jobs.append(("hazard/%s" % hz, impl, "c11_hazard.py", {"which": hz, "n": 300 if quick else 3000}, "c", None))
+    for hz in BOTH_MODE_HAZARDS:
+        jobs.append(("hazard/%s" % hz, impl, "c11_hazard.py", {"which": hz, "n": 1}, "c", None))
+        jobs.append(("hazard-py/%s" % hz, impl, "c11_hazard.py", {"which": hz, "n": 1}, "py", None))
     if asan_impl:
         jobs.append(("stress/asan", asan_impl, "c11_stress.py", {"seconds": secs, "readers": 3, "mutator": True, "seed": run.seed}, "c", asan_env))
         for hz in HAZARDS:
